@@ -93,7 +93,13 @@ impl MultiPeerBackend for SubSocketBackend {
             .collect();
 
         for message in subs_msgs {
-            send_queue.send(Message::Message(message)).await.unwrap();
+            if let Err(e) = send_queue.send(Message::Message(message)).await {
+                // The peer went away before it could be told our subscriptions.
+                // Forget the connection instead of panicking the task that
+                // accepted or initiated it.
+                log::debug!("Failed to announce subscriptions to new peer: {:?}", e);
+                return;
+            }
         }
 
         self.peers
